@@ -31,6 +31,16 @@ CHECKS["C09"] = dict(
     design="DESIGN.md section 3 / C09",
 )
 
+CHECKS["C11"] = dict(
+    technique="polynomial/rational normal forms of the Affine2D source expressions vs SVG 1.1 matrices; symbolic interpretation of parse_svg_transform over all operators/arities/ordered pairs; regex automata for the transform grammar; case split of rect_to_rect over 30 preserveAspectRatio forms",
+    text="The algebraic laws (product, point mapping, inverse on both sides, every elementary operation = self @ M_op, left-to-right composition, "
+         "decompositions recomposing) are established as identities of rational functions on the source expressions, i.e. for all 6-tuples of "
+         "reals at once; the parser is interpreted symbolically for every operator, arity, letter case and ordered pair of operators; printer "
+         "templates are shown to re-parse to the same six numbers; rect_to_rect is compared with the specification for all alignment/meet/slice cases.",
+    note="Not decided: floating-point error, is_degenerate's epsilon policy. Trig functions are opaque atoms (parity, cos^2+sin^2=1). Trusted: matrices of SVG 1.1 7.6 in rules/c11.py.",
+    design="DESIGN.md section 3 / C11",
+)
+
 NOT_APPLICABLE = {}
 
 
